@@ -9,20 +9,23 @@ ok == "addSuccess"
 er == "addError"
 
 \* quick: 2 workers x <= 2 tests, run() may raise; one fault (make_tests raising after k, or an interrupt)
-ScriptQ == {S(<<>>, FALSE), S(<<ok>>, FALSE), S(<<ok, er>>, FALSE), S(<<>>, TRUE), S(<<er>>, TRUE)}
+ScriptQ == {S(<<ok>>, "base"), S(<<>>, "no"), S(<<ok, er>>, "no"), S(<<>>, "exc"), S(<<er>>, "exc")}
 ScriptsQ == [1..2 -> ScriptQ]
 \* thorough: 3 workers, 1 worker with 3 tests, 4 small workers
-ScriptT == {S(<<>>, FALSE), S(<<ok>>, FALSE), S(<<>>, TRUE)}
-Scripts3 == [1..3 -> ScriptT \cup {S(<<ok, er>>, FALSE)}]
-Scripts4 == [1..4 -> {S(<<>>, FALSE), S(<<ok>>, FALSE)}] \cup {<<S(<<ok>>, TRUE), S(<<>>, TRUE), S(<<>>, FALSE), S(<<er>>, FALSE)>>}
-Scripts13 == [1..1 -> {S(<<ok, er, ok>>, FALSE), S(<<ok, er, ok>>, TRUE)}] \cup [1..2 -> {S(<<ok, er, ok>>, FALSE), S(<<ok>>, TRUE)}]
+ScriptT == {S(<<>>, "no"), S(<<ok>>, "no"), S(<<>>, "exc")}
+Scripts3 == [1..3 -> ScriptT \cup {S(<<ok, er>>, "no")}]
+Scripts4 == [1..4 -> {S(<<>>, "no"), S(<<ok>>, "no")}] \cup {<<S(<<ok>>, "exc"), S(<<>>, "exc"), S(<<>>, "no"), S(<<er>>, "no")>>}
+Scripts13 == [1..1 -> {S(<<ok, er, ok>>, "no"), S(<<ok, er, ok>>, "exc")}] \cup [1..2 -> {S(<<ok, er, ok>>, "no"), S(<<ok>>, "exc")}]
 \* export instances
-ScriptsX == { <<S(<<ok>>, FALSE)>>, <<S(<<>>, TRUE)>>, <<S(<<>>, FALSE), S(<<>>, FALSE)>> }
+ScriptsXq == { <<S(<<ok>>, "exc")>>, <<S(<<>>, "no"), S(<<>>, "no")>> }
+ScriptsX == { <<S(<<ok>>, "no")>>, <<S(<<>>, "no"), S(<<>>, "no")>> }
 \* deep random behaviours
 ScriptsS == [1..3 -> ScriptQ] \cup [1..4 -> ScriptT]
 
 NoFaults(s) == {<<NoFault, NoFault>>}
 OneFault(s) == {<<NoFault, NoFault>>} \cup {<<k, NoFault>> : k \in 0..Len(s)} \cup {<<NoFault, j>> : j \in 0..Len(s)}
+ExpFaults(s) == {<<NoFault, NoFault>>, <<Len(s), NoFault>>, <<NoFault, 1>>}
+ExpFaultsQ(s) == IF Len(s) = 1 THEN ExpFaults(s) ELSE {<<NoFault, NoFault>>}
 AnyFaults(s) == {<<k, j>> : k \in {NoFault} \cup (0..Len(s)), j \in {NoFault} \cup (0..Len(s))}
 
 MCInit == \E s \in Scripts : \E f \in FaultChoices(s) : InitWith(s, f[1], f[2])
